@@ -424,7 +424,10 @@ SIZES = [0, 1, 2, 23, 24, 255, 256, 1000]
 
 def gen_bytes(rng, big=False):
     n = rng.choice(SIZES + ([65535, 65536] if big else []))
-    return bytes((rng.randrange(256) for _ in range(min(n, 16)))) + bytes([n % 251]) * max(0, n - 16)
+    b = bytes((rng.randrange(256) for _ in range(min(n, 16)))) + bytes([n % 251]) * max(0, n - 16)
+    if b and 0xC0 <= b[0] < 0xE0:
+        b = bytes([b[0] ^ 0x80]) + b[1:]      # a payload never starts with a CBOR tag: it cannot be mistaken for an envelope
+    return b
 
 
 def gen_level(rng, depth, used, only_deps=False, big=False, int_extra=True):
@@ -464,7 +467,8 @@ def dep_names_of(b, depth=0):
     for e in es:
         if e.text is not None and e.content is not None:
             try:
-                read_envelope(e.content)
+                if read_envelope(e.content)[0] != 107:
+                    continue
             except Bad:
                 continue
             s.add(e.text)
